@@ -277,4 +277,41 @@ func TestVerifC14T(t *testing.T) {
 }
 `
 
-func runOracle(name, repo, verifDir, prop string) (string, bool) { return "no oracle", false }
+var oracleCache = map[string][2]string{}
+
+// runOracle: bounded search, on the tree under check, for a concrete policy + input on which the
+// property visibly fails (replay/oracle_test.go.txt). Only illustrates a violation already reported.
+func runOracle(name, repo, verifDir, prop string) (string, bool) {
+	if c, ok := oracleCache[prop]; ok {
+		return c[0], c[1] == "found"
+	}
+	res := func(txt string, found bool) (string, bool) {
+		f := ""
+		if found {
+			f = "found"
+		}
+		oracleCache[prop] = [2]string{txt, f}
+		return txt, found
+	}
+	tmpl, err := os.ReadFile(filepath.Join(verifDir, "replay", "oracle_test.go.txt"))
+	if err != nil {
+		return res(err.Error(), false)
+	}
+	out, _ := goTestOverlay(repo, ".", filepath.Join(verifDir, "work", "oracle"), "zz_verif_oracle_test.go", string(tmpl), "^TestVerifOracle$", []string{"VERIF_ORACLE_PROP=" + prop})
+	for _, l := range strings.Split(out, "\n") {
+		if strings.HasPrefix(l, "VERIF-ORACLE ") {
+			var r struct {
+				Policy, Input, Output, Why string
+				Tried                      int
+			}
+			if json.Unmarshal([]byte(strings.TrimPrefix(l, "VERIF-ORACLE ")), &r) != nil {
+				continue
+			}
+			if r.Why == "" {
+				return res(fmt.Sprintf("bounded search over %d policy/document pairs found no failing input", r.Tried), false)
+			}
+			return res(fmt.Sprintf("policy: %s\ninput:  %s\noutput: %s\n%s\n(found by a bounded search over small policies and documents on the tree under check, after %d tries; it illustrates the property-level failure, it is not the solver's model of this particular obligation)", r.Policy, r.Input, r.Output, r.Why, r.Tried), true)
+		}
+	}
+	return res("the oracle could not be run:\n"+out, false)
+}
